@@ -374,6 +374,8 @@ def tagOf (ks : List Key) (vs : List Val) : Except Err Str :=
   | some (.bytes b) => match utf8Decode b with
     | some s => .ok s
     | none => .error .value
+  | some (.blob _ _) => .error .unmodelled         -- opaque leaf as a tag: hashability / `"__" in tag` unknown
+  | some (.inst _ _) => .error .unmodelled         -- never in a literal tree
   | some _ => .error .typeAttr
 
 /-- `data.get("__exception__", False)` as a truth value -/
